@@ -588,7 +588,14 @@ class Run:
             return (lambda: setattr(h["obj"], a, src_h["obj"].doc)), (lambda: None), {"write": True}
         if name == "assign_doc":
             a = "document" if alias else "doc"
-            return (lambda: setattr(h["obj"], a, jcopy(mp))), (lambda: M.__setitem__(t, jcopy(mp))), {"write": True}
+
+            def assign():
+                setattr(h["obj"], a, jcopy(mp))
+                # (the setter goes through the owner's CURRENT document object, whatever reference the caller holds)
+                if getattr(h["obj"], "_document", None) is not None:
+                    self._op_objs.add(id(h["obj"]._document))
+
+            return assign, (lambda: M.__setitem__(t, jcopy(mp))), {"write": True}
 
         # ---- nested dicts -----------------------------------------------------
         if name in NESTED_DICT_OPS:
@@ -741,7 +748,8 @@ class Run:
                     except (KeyError, LookupError):
                         pass
                 if reopened:
-                    h["obj"], h["kind"] = job, "id"
+                    # (a new, independent handle: it shares nothing with the shallow copies of the one it replaces)
+                    h["obj"], h["kind"], h["group"] = job, "id", self._g()
                     h.pop("docref", None)
                     h.pop("docref_survived_remove", None)
                     self.cl.add("removed_job_reopened_by_id")
